@@ -91,7 +91,15 @@ Definition free (d : nd) : nd :=
   if live d then mkND (period d) (expiry d) false None (S (released d))
   else d.
 
-(* The with-statement.  `with NotifierDelay(P) as delay: <block>` calls
+(* __enter__():
+     return self
+   Nothing else: no field is written, the HAL is not touched, the clock is not
+   read -- in particular the grid stays anchored where __init__ put it, however
+   long after the construction the with-block is entered.  Result: the object,
+   and whether the value returned (what `as` binds) is the object itself. *)
+Definition enter (d : nd) : nd * bool := (d, true).
+
+(* The with-statement.  `with <delay> as name: <block>` calls
    __enter__ (returns self, nothing else) and, HOWEVER the block is left,
    __exit__(exc_type, exc_val, exc_tb): with (None, None, None) when the block
    runs to its end or is left by break / continue / return, with the exception
@@ -134,6 +142,9 @@ Inductive op :=
 | Body (b : Z)     (* the loop body runs for b microseconds of FPGA time *)
 | Wait             (* delay.wait() *)
 | Free             (* delay.free(), or __del__ (which only calls free()) *)
+| Enter            (* delay.__enter__(): a with-block on the object is entered
+                      (at the construction instant in `with NotifierDelay(P)
+                      as delay:`, or any time later in `with delay:`) *)
 | Exit (exc : option exn).
                    (* delay.__exit__(...): the with-block is left; exc = the
                       exception that leaves it, None when there is none *)
@@ -147,6 +158,7 @@ Definition step (s : nd * Z) (o : op) : nd * Z :=
   | Body b => (d, now + b)
   | Wait => wait d now
   | Free => (free d, now)
+  | Enter => (fst (enter d), now)
   | Exit e => (fst (exit_ d e), now)
   end.
 
@@ -164,8 +176,8 @@ Fixpoint wait_log (s : nd * Z) (ops : list op) : list (Z * Z) :=
       end
   end.
 
-(* what an observer outside the object sees after each wait()/free()
-   or __exit__: the FPGA clock, the alarm the HAL holds, the number of releases
+(* what an observer outside the object sees after each wait()/free(),
+   __enter__ or __exit__: the FPGA clock, the alarm the HAL holds, the number of releases
    so far (nothing is recorded after a body: it only moves the clock) *)
 Definition snap : Type := Z * option Z * nat.
 Definition snap_of (s : nd * Z) : snap := (snd s, alarm (fst s), released (fst s)).
@@ -184,6 +196,19 @@ Fixpoint snaps (s : nd * Z) (ops : list op) : list snap :=
    by a wait() *)
 Definition sched (bs : list Z) : list op := flat_map (fun b => [Body b; Wait]) bs.
 
+(* the object is built first, set-up work takes [setup] microseconds, THEN the
+   with-block is entered and the loop runs inside it:
+     delay = NotifierDelay(P); <set-up>; with delay: (body(b); delay.wait())*  *)
+Definition entered_late (setup : Z) (bs : list Z) : list op :=
+  Body setup :: Enter :: sched bs.
+
+(* the operations that neither release the notifier nor are part of the
+   property's loop can occur anywhere: [is_enter] recognises __enter__ *)
+Definition is_enter (o : op) : bool :=
+  match o with Enter => true | _ => false end.
+Definition without_enter (ops : list op) : list op :=
+  filter (fun o => negb (is_enter o)) ops.
+
 (* the k-th point of the grid anchored at construction time *)
 Definition grid (t0 p : Z) (k : nat) : Z := t0 + Z.of_nat k * p.
 
@@ -198,6 +223,18 @@ Definition is_free (o : op) : bool :=
   | Free => true
   | Exit _ => true
   | _ => false
+  end.
+
+(* one record per __enter__: is the value it returns the object itself *)
+Fixpoint enter_log (s : nd * Z) (ops : list op) : list bool :=
+  match ops with
+  | [] => []
+  | o :: r =>
+      let s' := step s o in
+      match o with
+      | Enter => snd (enter (fst s)) :: enter_log s' r
+      | _ => enter_log s' r
+      end
   end.
 
 (* one record per __exit__: does an exception come out of the with-statement *)
@@ -233,13 +270,15 @@ Fixpoint list_eqb {A} (e : A -> A -> bool) (l1 l2 : list A) : bool :=
 
 (* what the model predicts for a case: None = the constructor raises
    ValueError; Some (period :: snapshot after the constructor ++ snapshots
-   after each wait/free/__exit__ ++ one 0/1 per __exit__: did an exception come
-   out of the with-statement) *)
+   after each wait/free/__enter__/__exit__ ++ one 0/1 per __exit__: did an
+   exception come out of the with-statement ++ one 0/1 per __enter__: did it
+   return the object itself) *)
 Definition predict (P : Q) (t0 : Z) (ops : list op) : option (list Z) :=
   match create_opt P t0 with
   | None => None
   | Some d => Some (period d :: flat (snap_of (d, t0)) ++ flat_map flat (snaps (d, t0) ops)
-                             ++ map (fun b : bool => if b then 1 else 0) (exit_log (d, t0) ops))
+                             ++ map (fun b : bool => if b then 1 else 0) (exit_log (d, t0) ops)
+                             ++ map (fun b : bool => if b then 1 else 0) (enter_log (d, t0) ops))
   end.
 
 Definition case : Type := Q * Z * list op * option (list Z).
